@@ -495,6 +495,10 @@ def rule_R3g(ctx, rep, config="c-lib"):
                         guarded.append((lp.root, c))
             for (flag, R) in guarded:
                 rel = released(R.callee)
+                if R.callee in ("yaep_free", "free") and R.args:
+                    # the release written out in the handler itself
+                    lp_ = loaded_from(f, R.args[-1])
+                    rel = set([lp_.root[1]]) if (lp_ is not None and lp_.root[0] == "g") else set()
                 if not rel:
                     continue
                 creators = [c for c in f.calls() if in_region(f, nrm, c) and c.callee and created(c.callee) & rel]
